@@ -1073,7 +1073,8 @@ def measure_slices(q):
         kw = dict(mesh=mesh, doms=doms, run=name, form_every=1 if q else 2)
         if q:
             out.append(Slice(name + ":ops-R", T, [{"use", "R", *bin_}, {"R"}], **kw))
-            out.append(Slice(name + ":R-ops", T, [{"R", "grad"}, {"R", "neg", "add", *bin_}], **kw))
+            if any(d["it"] != "interior_facet" for d in doms[:2]) and mesh == "affine":  # (the quick tier: under ds /\\ dS and dS /\\ ds only)
+                out.append(Slice(name + ":R-ops", T, [{"R", "grad"}, {"neg", "add", *bin_}], **kw))
         else:
             out.append(Slice(name + ":ops-R", T, [{"use", "R", "grad", "add", *bin_}, {"R", "neg", "idx", "jump", "avg"}, {"R"}], **kw))
             out.append(Slice(name + ":R-ops", T, [{"R", "grad", "rv"}, {"R", "neg", "add", "div", "jumpn", *bin_}], **kw))
@@ -1299,13 +1300,14 @@ def run(ctx, args):
         if s["domains"] > 1:
             for k, v in s["status"].items():
                 per.setdefault(s["run"], {})[k] = per.setdefault(s["run"], {}).get(k, 0) + v
+    # (classes of the model only: what the tree under test answers must not turn a violation into a vacuous run)
     for name, (doms, _, _) in MEASURES.items():
-        need = ["form:valid/accept/d", "form:valid/accept/nd", "form:invalid/reject/d", "form:invalid/reject/nd", "reject/reject/missing/d"]
+        need = [("form:valid/", "/d"), ("form:valid/", "/nd"), ("form:invalid/", "/d"), ("form:invalid/", "/nd"), ("reject/", "/missing/d"), ("accept/", "/valid/d")]
         if any(d["it"] != "interior_facet" for d in doms):
-            need.append("reject/reject/onesided/d")
-        for k in need:
-            if not only and not per.get(name, {}).get(k):
-                raise MachineryError(f"vacuous run: no case of class {k} under the measure {name}")
+            need.append(("reject/", "/onesided/d"))
+        for a, b in need:
+            if not only and not any(v for k, v in per.get(name, {}).items() if k.startswith(a) and k.endswith(b)):
+                raise MachineryError(f"vacuous run: no case of class {a}*{b} under the measure {name}")
     ctx.cov["verdict_classes"] = {k: v for k, v in sorted(tot.items()) if "/" in k}
 
 
